@@ -80,7 +80,13 @@ fn variant_marshal(enum_name: syn::Ident, variant: &syn::Variant) -> TokenStream
 
 
                     // -2 for pos and nullbyte
-                    ctx.buf[pos] = (ctx.buf.len() - pos - 2) as u8;
+                    let sig_len = ctx.buf.len() - pos - 2;
+                    if sig_len > 255 {
+                        // a variant's signature is limited to 255 bytes, the length byte can not say more
+                        ctx.buf.truncate(pos);
+                        return Err(::rustbus::signature::Error::SignatureTooLong.into());
+                    }
+                    ctx.buf[pos] = sig_len as u8;
 
                     // actual marshal code
                     // align to 8 because we treat this as a struct
@@ -117,7 +123,13 @@ fn variant_marshal(enum_name: syn::Ident, variant: &syn::Variant) -> TokenStream
                     ctx.buf.push(0);
 
                     // -2 for pos and nullbyte
-                    ctx.buf[pos] = (ctx.buf.len() - pos - 2) as u8;
+                    let sig_len = ctx.buf.len() - pos - 2;
+                    if sig_len > 255 {
+                        // a variant's signature is limited to 255 bytes, the length byte can not say more
+                        ctx.buf.truncate(pos);
+                        return Err(::rustbus::signature::Error::SignatureTooLong.into());
+                    }
+                    ctx.buf[pos] = sig_len as u8;
 
                     // align to 8 because we treat this as a struct
                     ctx.align_to(8);
@@ -136,6 +148,10 @@ fn variant_marshal(enum_name: syn::Ident, variant: &syn::Variant) -> TokenStream
                 #enum_name::#name( val ) => {
                     let mut sig_str = ::rustbus::wire::marshal::traits::SignatureBuffer::new();
                     <#ty as ::rustbus::Signature>::sig_str(&mut sig_str);
+                    if sig_str.as_ref().len() > 255 {
+                        // a variant's signature is limited to 255 bytes, the length byte can not say more
+                        return Err(::rustbus::signature::Error::SignatureTooLong.into());
+                    }
                     ::rustbus::wire::util::write_signature(sig_str.as_ref(), &mut ctx.buf);
 
                     val.marshal(ctx)?;
